@@ -201,6 +201,13 @@ pub(crate) mod env {
     pub static mut OWN: [u64; MAXW] = [0; MAXW];
     /// number of environment writes still allowed (symbolic freeze point for C21)
     pub static mut BUDGET: usize = 0;
+    /// counter-protocol accounting (lower-allocator obligations): units of the huge frame's counter
+    /// this thread has reserved (decremented, bits not yet claimed), released (bits cleared, counter
+    /// not yet incremented) and the number of bits it owns.
+    pub static mut UNITS_ON: bool = false;
+    pub static mut RES: usize = 0;
+    pub static mut PEND: usize = 0;
+    pub static mut OWNED_BITS: usize = 0;
 
     /// Raw accesses go through the original pointer (no integer-to-pointer cast: CBMC would have to
     /// consider every object for such a pointer).
@@ -260,11 +267,70 @@ pub(crate) mod env {
                     let claim = new & diff == diff;
                     let release = old & diff == diff && own & diff == diff;
                     kani::assert(claim || release, "C01 guarantee: a write either claims bits that were all free or releases bits this thread owns");
+                    let k = diff.count_ones() as usize;
                     if claim {
                         OWN[w] |= diff << shift;
+                        if UNITS_ON {
+                            kani::assert(RES >= k, "C01/C05 guarantee: bits are claimed only against counter units reserved before (counter first, then bits)");
+                            RES -= k;
+                            OWNED_BITS += k;
+                        }
                     } else {
                         OWN[w] &= !(diff << shift);
+                        if UNITS_ON {
+                            OWNED_BITS -= k;
+                            PEND += k;
+                        }
                     }
+                }
+            }
+        }
+    }
+}
+
+/// Rely/guarantee for ONE huge frame's counter entry (u16) under the counter-then-bits protocol.
+///   RELY      : while this thread owns bits of the frame or has reserved / released units (UNITS > 0)
+///               other threads keep the entry a counter (no marker) with counter + UNITS <= LEN - this is
+///               what every thread's guarantee implies (counter = zeros - reserved - pending of all threads);
+///               otherwise they may store any well-formed entry.
+///   GUARANTEE : this thread decrements by k (reserving k units) or increments by k units it reserved
+///               (undo) or released (free).
+pub(crate) mod cenv {
+    use super::env;
+    pub static mut ON: bool = false;
+    pub static mut PTR: usize = 0;
+    pub const LEN: u16 = crate::HUGE_FRAMES as u16;
+    pub fn interfere(p: *const u8) {
+        unsafe {
+            if ON && p as usize == PTR && env::BUDGET > 0 && kani::any() {
+                let e: u16 = kani::any();
+                let units = env::RES + env::PEND + env::OWNED_BITS;
+                kani::assume(e == u16::MAX || e <= LEN);
+                kani::assume(units == 0 || (e != u16::MAX && e as usize + units <= LEN as usize));
+                *(p as *mut u16) = e;
+                env::BUDGET -= 1;
+            }
+        }
+    }
+    /// the entry as this thread may find it at its first access (same constraint as an environment step)
+    pub fn admissible(e: u16) -> bool {
+        let units = unsafe { env::RES + env::PEND + env::OWNED_BITS };
+        (e == u16::MAX || e <= LEN) && (units == 0 || (e != u16::MAX && e as usize + units <= LEN as usize))
+    }
+    pub fn guarantee(p: *const u8, old: u16, new: u16) {
+        unsafe {
+            if ON && p as usize == PTR && old != new {
+                kani::assert(old != u16::MAX && new != u16::MAX, "C01 guarantee: the small-order paths never write the whole-huge-frame marker");
+                if new < old {
+                    env::RES += (old - new) as usize;
+                } else {
+                    // units come back from released bits (a free, or the rollback of a partial multi-row
+                    // claim) and from reservations that were never turned into bits (undo)
+                    let k = (new - old) as usize;
+                    kani::assert(env::PEND + env::RES >= k, "C05 guarantee: the counter is incremented only by units this thread reserved or released");
+                    let from_pend = if env::PEND >= k { k } else { env::PEND };
+                    env::PEND -= from_pend;
+                    env::RES -= k - from_pend;
                 }
             }
         }
@@ -277,6 +343,7 @@ impl<T: Atomic> Atom<T> {
     }
     pub(crate) fn load_rg(&self) -> T {
         env::interfere(self.rg_addr(), core::mem::size_of::<T>());
+        cenv::interfere(self.rg_addr());
         self.0.load().into()
     }
     pub(crate) fn store_rg(&self, v: T) {
@@ -301,6 +368,7 @@ impl<T: Atomic> Atom<T> {
     pub(crate) fn try_update_rg<F: FnMut(T) -> Option<T>>(&self, mut f: F) -> core::result::Result<T, T> {
         let (a, s) = (self.rg_addr(), core::mem::size_of::<T>());
         env::interfere(a, s);
+        cenv::interfere(a);
         let mut prev = self.0.load();
         let mut first = true;
         loop {
@@ -309,12 +377,16 @@ impl<T: Atomic> Atom<T> {
             };
             if first {
                 env::interfere(a, s);
+                cenv::interfere(a);
                 first = false;
             }
             let old = unsafe { env::raw_read(a, s) };
             match self.0.compare_exchange(prev, next.into()) {
                 Ok(v) => {
                     env::guarantee(a, s, old, unsafe { env::raw_read(a, s) });
+                    if s == 2 {
+                        cenv::guarantee(a, old as u16, unsafe { env::raw_read(a, s) } as u16);
+                    }
                     return Ok(v.into());
                 }
                 Err(v) => prev = v,
